@@ -75,6 +75,7 @@ class AccfgMachine(Machine):
             for f in self.dev[a].regs:
                 self.dev[a].regs[f] = 0
         self.check_infer = check_infer
+        self.pc_side_effects = True
         self.check_thread = check_thread
         self.evid = 0
         self.probes: dict[str, int] = {}
@@ -234,6 +235,7 @@ def _launch(m: AccfgMachine, op, vals, core):
         shift = [x for x in op.attributes["shift_vals"].get_values()]
         groups = len(mult) // n
         new_m = op.attributes["m"].value.data // groups
+        keep = None if m.pc_side_effects else (dict(d.regs), set(d.written), set(d.known))
         d.regs["M"] = d.regs["temporal_loop_bound"] = new_m
         d.written |= {"M", "temporal_loop_bound"}
         d.known |= {"M", "temporal_loop_bound"}
@@ -257,6 +259,9 @@ def _launch(m: AccfgMachine, op, vals, core):
             snaps.append(({f: d.regs[f] for f in sorted(d.regs)}, frozenset(d.written)))
         m.hist.append(("pclaunch", d.name, lv, snaps))
         m.probe("per-channel-launch")
+        if keep is not None:
+            # counterfactual used to attribute a difference: a launch that leaves the registers as the state tracking believes
+            d.regs, d.written, d.known = keep
     else:
         m.hist.append(("launch", d.name, lv, {f: d.regs[f] for f in sorted(d.regs)}, w, frozenset(d.known)))
     vals[op.token] = ("token", d.name, d.launches)
